@@ -110,9 +110,19 @@ static bool check_name(const std::string& s, std::string* why) {
   REQ(acc == exp, ctx + (acc ? "accepted as a fixed-offset name but is not one" : "rejected but is a fixed-offset name"));
   if (acc) REQ(got.count() == exp_off, ctx + "offset " + vf::i64_str(got.count()) + " expected " + vf::i64_str(exp_off));
   const long calls0 = g_factory_calls.load();
+  // another spelling of the same offset (the canonical one) is loaded before or after this one: each spelling must
+  // keep reporting the name it was asked for, and fixed_time_zone(offset) the canonical one
+  const bool canon_first = exp && exp_off != 0 && (vf::fnv(s) & 1);
+  cctz::time_zone ctz;
+  if (canon_first) REQ(cctz::load_time_zone(ref_name(exp_off), &ctz) && ctz.name() == ref_name(exp_off), ctx + "canonical name of the same offset loads as '" + ctz.name() + "'");
   cctz::time_zone tz;
   const bool ok = cctz::load_time_zone(s, &tz);
   const long used = g_factory_calls.load() - calls0;
+  if (exp && exp_off != 0) {
+    REQ(ok && tz.name() == s, ctx + "the loaded zone reports the name '" + vf::esc(tz.name()) + "' instead of the requested one");
+    REQ(cctz::load_time_zone(ref_name(exp_off), &ctz) && ctz.name() == ref_name(exp_off), ctx + "after loading this spelling, the canonical name of the same offset loads as '" + vf::esc(ctz.name()) + "'");
+    REQ(cctz::fixed_time_zone(cctz::seconds(exp_off)).name() == ref_name(exp_off), ctx + "after loading this spelling, fixed_time_zone(offset) is named '" + vf::esc(cctz::fixed_time_zone(cctz::seconds(exp_off)).name()) + "'");
+  }
   if (exp) {
     REQ(ok, ctx + "load_time_zone failed for a fixed-offset name");
     REQ(used == 0, ctx + "data source consulted for a fixed-offset name");
@@ -130,8 +140,19 @@ static bool check_name(const std::string& s, std::string* why) {
   return true;
 }
 
+// a sequence of calls on one thread: every answer must be what the same call answers alone (no state between calls)
+static bool check_offset_sequence(const std::vector<int64_t>& offs, std::string* why) {
+  for (size_t i = 0; i < offs.size(); ++i)
+    if (!check_offset(offs[i], {0, 1700000000}, why)) { *why = "call #" + std::to_string(i + 1) + " of the sequence, fixed_time_zone(" + vf::i64_str(offs[i]) + "): " + *why; return false; }
+  return true;
+}
 static bool replay(const vf::Case& c, std::string* why) {
   if (c.has("name_hex")) return check_name(vf::unhex(c.get("name_hex")), why);
+  if (c.has("offset_sequence")) {
+    std::vector<int64_t> offs; std::istringstream q(c.get("offset_sequence")); std::string t;
+    while (q >> t) offs.push_back((int64_t)vf::str_i128(t));
+    return check_offset_sequence(offs, why);
+  }
   std::vector<int64_t> ins;
   std::istringstream is(c.get("instants"));
   std::string tok;
@@ -175,7 +196,8 @@ static void run(const vf::Args& a, vf::Evidence& ev, vf::Reporter& rep) {
             "61 s of a whole hour and the +-24h neighbourhood), each x instants {int64 min/max, 0, +-2^31, +-2^59, "
             "generated}: name, abbreviation, lookup both ways, load by name, no data-source access, name->offset. "
             "(2) rapidcheck: names built from possibly out-of-range fields with 0-3 edits (replace/insert/delete/case, "
-            "NUL and 8-bit bytes) and random strings, against the documented acceptance rule. (3) rapidcheck: int64 offsets far beyond 24 h (+-2^k, multiples of 2^32 +- in-range values, uniform): must be UTC. Non-trivial: every "
+            "NUL and 8-bit bytes) and random strings, against the documented acceptance rule. (3) rapidcheck: int64 offsets far beyond 24 h (+-2^k, multiples of 2^32 +- in-range values, uniform): must be UTC. (4) rapidcheck: sequences of 2-6 related offsets on one thread (equal modulo 2^32 / 2^16 / 2^31, "
+            "negated, neighbours, repeated, one high bit flipped): each call answers as it does alone. Non-trivial: every "
             "non-zero offset (distinct by value); names within the mutation family (distinct by content).";
   // generated instants (shared by all offsets of this shard), drawn once from rapidcheck
   std::vector<int64_t> extra;
@@ -229,7 +251,36 @@ static void run(const vf::Args& a, vf::Evidence& ev, vf::Reporter& rep) {
     std::string why;
     if (!check_offset(o, {0, 1700000000}, &why)) { rep.failing(c, why); RC_FAIL(why); }
   });
-  long budget = a.budget(30000, 400000);
+  // sequences of related offsets on one thread (equal modulo 2^32 / 2^16, negated, neighbours, repeated): the answer of a
+  // call must not depend on the calls before it
+  vf::rc_run("C15.offset_sequences", a.stream_seed(4), (int)a.budget(4000, 50000), rep, [&]() {
+    std::vector<int64_t> offs;
+    const int n = *vf::range<int>(2, 6);
+    int64_t base = *rc::gen::weightedOneOf<int64_t>({{4, vf::range<int64_t>(-86400, 86400)}, {1, vf::range<int64_t>(-90000, 90000)}, {1, vf::edge_i64()}});
+    offs.push_back(base);
+    for (int i = 1; i < n; ++i) {
+      const int64_t prev = offs[*vf::index(offs.size())];
+      int64_t o = prev;
+      switch (*vf::range<int>(0, 7)) {
+        case 0: o = (int64_t)((uint64_t)prev + (uint64_t)(*vf::range<int64_t>(-3, 3)) * 4294967296ULL); break;   // same low 32 bits
+        case 1: o = (int64_t)((uint64_t)prev + (uint64_t)(*vf::range<int64_t>(-3, 3)) * 65536ULL); break;        // same low 16 bits
+        case 2: o = prev == INT64_MIN ? prev : -prev; break;
+        case 3: o = (int64_t)((uint64_t)prev + (uint64_t)*vf::range<int64_t>(-2, 2)); break;
+        case 4: o = prev; break;
+        case 5: o = (int64_t)((uint64_t)prev + (uint64_t)(*vf::range<int64_t>(-2, 2)) * (1ULL << 31)); break;
+        case 6: o = (int64_t)((uint64_t)prev ^ (1ULL << *vf::range<int>(17, 63))); break;                        // one high bit flipped
+        default: o = *vf::range<int64_t>(-86400, 86400); break;
+      }
+      offs.push_back(o);
+    }
+    std::string text; for (int64_t o : offs) text += vf::i64_str(o) + " ";
+    ev.eval(offs.size()); ev.cls("offset_sequences"); ev.nt(vf::fnv(text));
+    vf::Case c; c.set("offset_sequence", text);
+    vf::CurrentScope cs([&]() { return c; });
+    std::string why;
+    if (!check_offset_sequence(offs, &why)) { rep.failing(c, why); RC_FAIL(why); }
+  });
+  long budget = a.budget(120000, 800000);
   vf::rc_run("C15.names", a.stream_seed(1), (int)budget, rep, [&]() {
     std::string n = *name_gen();
     int64_t off;
